@@ -76,7 +76,7 @@ def run(ctx):
     logging.getLogger("paramiko").addHandler(logging.NullHandler())
     logging.getLogger("paramiko").propagate = False
     threading.excepthook = lambda a: None  # prefetch threads die noisily when a hung case is torn down
-    n = ctx.pick(70, 1300)
+    n = ctx.pick(70, 600)
     end = ctx.deadline(240, 1200)
     replayed = 0
     for idx in range(n):
@@ -135,9 +135,9 @@ def run(ctx):
             ctx.count("value_mismatches")
             ctx.violation(value_signature(out, bad[0]), "%s returned bytes that are not the file's bytes at the requested range"
                           % bad[0]["op"], dict(case=case, observed=R.summarize(out)))
-    ctx.require("cases", ctx.pick(300, 8000))
-    ctx.require("read_values_compared", ctx.pick(500, 12000))
-    ctx.require("readv_chunks_compared", ctx.pick(600, 12000))
-    ctx.require("cases_with_short_server_reads", ctx.pick(100, 1500))
-    ctx.require("cases_with_status_reply_to_read", ctx.pick(40, 800))
-    ctx.require("cases_cap_set", ctx.pick(120, 2500))
+    ctx.require("cases", ctx.pick(300, 4000))
+    ctx.require("read_values_compared", ctx.pick(500, 6000))
+    ctx.require("readv_chunks_compared", ctx.pick(600, 6000))
+    ctx.require("cases_with_short_server_reads", ctx.pick(100, 1000))
+    ctx.require("cases_with_status_reply_to_read", ctx.pick(40, 500))
+    ctx.require("cases_cap_set", ctx.pick(120, 1500))
